@@ -66,3 +66,33 @@ Fixpoint undiff (diffs : list Z) (prev : option Z) : list Z :=
   | [] => []
   | d :: t => let v := (d + match prev with None => 128 | Some p => p end) mod 256 in v :: undiff t (Some v)
   end.
+
+(* ---- the documented display loop: jpeg_start_output(cinfo, cinfo->input_scan_number) while the input
+   is still INSIDE that scan.  decompress_data / output_data first force the input side:
+     while (input_scan_number == output_scan_number && input_iMCU_row <= output_iMCU_row) consume_input
+   i.e. the input must be `ahead` = 1 rows ahead of the output row (input_iMCU_row is the row the input
+   side is ABOUT to read).  `ahead` is read from jdcoefct.c / jddiffct.c by the translator. *)
+Fixpoint force_input (fuel ahead : nat) (diffs : list Z) (s : bst) : bst :=
+  match fuel with
+  | O => s
+  | S f =>
+    if Nat.leb (out_row s + ahead) (in_rows s) || Nat.leb (length diffs) (in_rows s) then s   (* far enough, or EOI *)
+    else force_input f ahead diffs (consume1 diffs s)
+  end.
+
+(* one row of the pass: what the output side finds in the buffer for row output_iMCU_row *)
+Definition live_row (ahead : nat) (diffs : list Z) (s : bst) : option Z * bst :=
+  let s1 := force_input (length diffs) ahead diffs s in
+  (nth_error (store s1) (out_row s1),
+   {| in_rows := in_rows s1; first_row := first_row s1; store := store s1; out_row := S (out_row s1); in_pass := true |}).
+
+Fixpoint live_pass (n ahead : nat) (diffs : list Z) (s : bst) : list (option Z) :=
+  match n with
+  | O => []
+  | S n' => let (r, s') := live_row ahead diffs s in r :: live_pass n' ahead diffs s'
+  end.
+
+(* a complete pass started in state s (any point of the scan) *)
+Definition display_pass (ahead : nat) (diffs : list Z) (s : bst) : list (option Z) :=
+  live_pass (length diffs) ahead diffs
+    {| in_rows := in_rows s; first_row := first_row s; store := store s; out_row := 0; in_pass := true |}.
